@@ -82,6 +82,8 @@ OPS: Dict[str, Tuple[int, str, Any, Any, Any]] = {
     "ed25519verify_bare": (7, A, 3, 1, 1900), "sha3_256": (7, A, 1, 1, 130),
     "vrf_verify": (7, A, 3, 2, 5700), "block": (7, A, 1, 1, 1),
     "replace2": (7, A, 2, 1, 1), "replace3": (7, A, 3, 1, 1),
+    # assembler pseudo-op of v7: `replace s` = replace2 s (any s, including 0), `replace` = replace3
+    "replace": (7, A, "imm", 1, 1),
     # ---- v8 -------------------------------------------------------------------------------
     "pushbytess": (8, A, 0, "list", 1), "pushints": (8, A, 0, "list", 1),
     "bury": (8, A, "bury", "bury", 1), "popn": (8, A, "n", 0, 1), "dupn": (8, A, "dupn", "dupn", 1),
@@ -102,6 +104,8 @@ def stack_effect(op: str, imm: List[Any]) -> Tuple[int, int]:
         return 0, len(imm)
     if op == "match":
         return len(imm) + 1, 0
+    if op == "replace":
+        return (2, 1) if imm else (3, 1)
     n = int(imm[0]) if imm else 0
     if op == "dig":
         return n + 1, n + 2
